@@ -215,6 +215,19 @@ pub fn run(ctx: &Ctx) -> CheckResult {
             jobs.push((Cfg::p2(Kind::SlowStoch, n, e), bar_ops.clone(), db));
         }
     }
+    // the same composites in a tiny price unit (2^-60): absolute epsilons / thresholds in a composite or a part show here
+    let tiny_s = s_ops(&S_TINY);
+    let tiny_b = b_ops(&scale_bars(&b_grid(), TINY));
+    for &n in &[1usize, 2, 3, 5] {
+        jobs.push((Cfg::pm(Kind::Bb, n, 2.0), tiny_s.clone(), ds));
+        jobs.push((Cfg::pm(Kind::Kc, n, 2.0), tiny_b.clone(), db - 1));
+        jobs.push((Cfg::pm(Kind::Ce, n, 3.0), tiny_b.clone(), db - 1));
+        jobs.push((Cfg::p1(Kind::Atr, n), tiny_b.clone(), db - 1));
+        jobs.push((Cfg::p1(Kind::Cci, n), tiny_b.clone(), db));
+        jobs.push((Cfg::p2(Kind::SlowStoch, n, 2), tiny_b.clone(), db - 1));
+        jobs.push((Cfg::p3(Kind::Macd, n, n + 1, 2), tiny_s.clone(), ds));
+        jobs.push((Cfg::p3(Kind::Ppo, n, n + 1, 2), tiny_s.clone(), ds));
+    }
     for tri in [[1usize, 1, 1], [1, 2, 3], [3, 2, 1], [2, 7, 2], [12, 26, 9], [3, 3, 7]] {
         jobs.push((Cfg::p3(Kind::Macd, tri[0], tri[1], tri[2]), scal_ops.clone(), ds));
         jobs.push((Cfg::p3(Kind::Ppo, tri[0], tri[1], tri[2]), s_ops(&S_POS5), ds + 1));
@@ -251,6 +264,6 @@ pub fn run(ctx: &Ctx) -> CheckResult {
     res.absorb(merge_jobs(outs));
     res.extra.insert("composite_configurations".into(), json!(jobs.len()));
     res.rule = "case = (composite configuration, stream): the real composite and separately constructed public parts (SMA, SD, EMA, FastStochastic, TrueRange, ATR, Minimum, Maximum, MAD) are fed the same stream; at every step the composite's outputs must equal the documented combination of the parts within tau(t)*M (variances for the Bollinger half-width, times the condition number for CCI/PPO, gated at 1e6); non-trivial = stream longer than the window".into();
-    res.bounds = format!("BB/KC/CE periods {singles:?} x multipliers {{2,0,0.5,3}}, ATR, CCI, SLOW_STOCH (n x {{1,3}}), MACD/PPO over 6 period triples; all 9^{ds} mixed-sign/rough scalar streams and all 10^{db} valid-bar streams (side multipliers 1-2 levels shallower)");
+    res.bounds = format!("BB/KC/CE periods {singles:?} x multipliers {{2,0,0.5,3}}, ATR, CCI, SLOW_STOCH (n x {{1,3}}), MACD/PPO over 6 period triples; all 9^{ds} mixed-sign/rough scalar streams and all 10^{db} valid-bar streams (side multipliers 1-2 levels shallower); the positive scalar / bar alphabets in a 2^-60 price unit for periods {{1,2,3,5}}");
     res
 }
